@@ -39,6 +39,7 @@ RULE = ("one mixed script (~400 ops from every family: field, curve, scalar mult
         "bit-exact comparison of an execution's raw output with the sequential baseline (plus the model comparison of "
         "the baseline itself); distinct_nontrivial counts distinct (op id, thread) pairs that executed concurrently plus "
         "distinct interleaving fingerprints observed. Sanitizer legs: TSan (with and without probes), ASan, memcheck, Miri")
+RULE += (" " + 'Readers / writers that fail, panic or call back into the library (nested calls compared with the same calls outside); first-call leg: degenerate inputs as the first library call on freshly spawned threads; no CPU progress for 60 s with operations pending is reported as a hang.')
 ASSUMPTIONS = ["schedules are sampled, not enumerated", "TSan/ASan see the library and std (build-std for TSan); Miri runs a micro workload only (about 1e5x slower than native)",
                "the interleaving fingerprint uses relaxed atomics only, so the monitor adds no synchronisation that could mask a race"]
 MIN_EVALS = {"quick": 10000, "thorough": 200000}
